@@ -526,7 +526,11 @@ func (r *Resolver) resolve(ctx context.Context, rs *resolveState) (*dns.Msg, err
 	m.RecursionAvailable = true
 	m.Extra = rs.req.Extra
 
-	return m, nil
+	// An empty NOERROR still claims the name holds nothing of this type.
+	// Under a signed zone that claim needs its proof like any other
+	// denial, so it goes through the same validation as one that came
+	// with an authority section (and as the empty name error above).
+	return r.authority(ctx, rs.req, m, rs.parentDS, rs.servers.Zone)
 }
 
 // groupLookup collapses concurrent identical lookups onto one leader
